@@ -315,6 +315,8 @@ impl DNSSector {
 
     /// Parses a RR from the answer, nameservers or additional sections.
     fn parse_rr(&mut self, section: Section) -> Result<(), Error> {
+        #[cfg(dnssector_verif)]
+        crate::verif_hooks::tick();
         let rr_start_offset = self.offset;
         self.skip_name()?;
         let rr_type = self.rr_type()?;
@@ -471,6 +473,8 @@ impl DNSSector {
     /// Skips over a record of the edns pseudo-section.
     #[inline]
     fn edns_skip_rr(&mut self) -> Result<(), Error> {
+        #[cfg(dnssector_verif)]
+        crate::verif_hooks::tick();
         let inc = DNS_EDNS_RR_HEADER_SIZE + self.edns_rr_rdlen()?;
         self.edns_increment_offset(inc).map(|_| {})
     }
@@ -543,6 +547,8 @@ impl DNSSector {
             bail!(DSError::InvalidName("Empty name"));
         }
         loop {
+            #[cfg(dnssector_verif)]
+            crate::verif_hooks::tick();
             if offset >= packet_len {
                 bail!(DSError::InvalidName("Truncated name"));
             }
